@@ -403,6 +403,57 @@ def run(ctx):
             for k in list(sys.modules):
                 if k.split(".")[0] == pkg:
                     del sys.modules[k]
+    # a keep that fails, the failure handled by the pipeline itself (a refresh that cannot reach its source): the evaluation goes on and
+    # returns; the path still serves the value most recently KEPT there, and a kept reader of the path is served from the store
+    for ci, store_kind in enumerate(["local", "memory", "local_lru"]):
+        base = tempfile.mkdtemp(prefix="ddsverif_c09h_")
+        pkg = "c9h_%d_%d" % (os.getpid(), ci)
+        try:
+            real.reset_process_state()
+            real.set_store(store_kind, os.path.join(base, "si"), os.path.join(base, "sd"))
+            ref.call(cmd="refpaths", paths={})
+            for step, (body, entry_fun, may_run) in enumerate([
+                    ("    return term('fetch', 'd1')\n", "f0", {"fetch", "reader"}),
+                    ("    boom('ConnectionError', 'down')\n", "f0", {"fetch"}),
+                    ("    boom('ConnectionError', 'down')\n", "f1", set()),
+                    ("    boom('TimeoutError', 'still down')\n", "f0", {"fetch"}),
+                    ("    boom('TimeoutError', 'still down')\n", "f1", set())]):
+                src = ("import dds\nfrom ddsverif_rt import log, term, boom\n\n"
+                       "def fetch():\n    log('fetch')\n" + body + "\n"
+                       "def reader():\n    log('reader')\n    return term('reader', dds.load('/h/data'))\n\n"
+                       "def f0():\n    try:\n        d = dds.keep('/h/data', fetch)\n    except (ConnectionError, TimeoutError):\n        d = 'unreachable'\n"
+                       "    return term('f0', d)\n\n"
+                       "def f1():\n    return term('f1', dds.keep('/h/reader', reader))\n")
+                os.makedirs(os.path.join(base, pkg), exist_ok=True)
+                open(os.path.join(base, pkg, "__init__.py"), "w").close()
+                with open(os.path.join(base, pkg, "main.py"), "w") as fh:
+                    fh.write(src)
+                real.load_world(base, pkg + ".main", None, accept=pkg)
+                r = real.run({"kind": "eval", "fun": entry_fun})
+                if step == 0:
+                    r = real.run({"kind": "eval", "fun": "f1"})
+                lv = real.load_path("/h/data")
+                res.evaluations += 1
+                res.count("handled_failing_keep_steps")
+                res.nontrivial("handled failing keep %s %d" % (store_kind, step))
+                want = {"f0": "f0(fetch(d1))" if step == 0 else "f0(unreachable)", "f1": "f1(reader(fetch(d1)))"}["f1" if step == 0 else entry_fun]
+                ran = set(x for x in r["log"] if x in ("fetch", "reader"))
+                bad = None
+                if r["error"] is not None or r["value"] != want:
+                    bad = "the evaluation returns %r (error %s), plain execution %r" % (r["value"], r["error"], want)
+                elif lv.get("error") is not None or lv.get("value") != "fetch(d1)":
+                    bad = "dds.load('/h/data') gives %s: the value most recently kept there is 'fetch(d1)'" % (lv,)
+                elif step > 0 and ran - may_run:
+                    bad = "%s re-executed although /h/data serves the same result as before" % sorted(ran - may_run)
+                if bad:
+                    res.violations.append({"what": "a keep that fails and whose failure the pipeline handles: " + bad,
+                                           "input": {"source": src, "step": step, "entry": entry_fun, "store": store_kind}, "kf": None})
+                    break
+        finally:
+            shutil.rmtree(base, ignore_errors=True)
+            for k in list(sys.modules):
+                if k.split(".")[0] == pkg:
+                    del sys.modules[k]
     pipeline.close_ref()
     res.rule = ("all 40 combinations placement {root, helper, kept, datafn, loaded value fed to a keep} x producer {datafn, keep} x order {before, after, earlier, never}, plus 16 where the producing function already appeared in the evaluation (called / kept at another path) "
                 "(x%d with fresh random variables / stores / entry kinds), each followed by re-evaluation, producer edit, unrelated edit; one "
